@@ -64,6 +64,28 @@ func ruleColumnCount(c *Ctx, p *core.Program, rule string) {
 		p.Method(core.PkgProto, "Results", "DecodeResult"),
 		p.Method(core.PkgProto, "Results", "decodeAuto"),
 	}
+	// helpers of the three roots that read from the wire in a loop (a skip loop moved out of DecodeRawBlock)
+	type site struct {
+		caller *ssa.Function
+		call   ssa.CallInstruction
+	}
+	callSites := map[*ssa.Function][]site{}
+	for _, root := range append([]*ssa.Function{}, fns...) {
+		if root == nil {
+			continue
+		}
+		for _, call := range core.Calls(root) {
+			sf := core.StaticFn(call)
+			if sf == nil || sf.Blocks == nil || pkgOf(sf) == nil || pkgOf(sf).Path() != core.PkgProto || core.RecvNamed2(sf) != nil {
+				continue
+			}
+			if _, seen := callSites[sf]; !seen {
+				fns = append(fns, sf)
+			}
+			callSites[sf] = append(callSites[sf], site{root, call})
+		}
+	}
+	isCols := func(x ssa.Value) bool { return strings.HasSuffix(core.FieldOrigin(x, 0), "Block.Columns") }
 	n := 0
 	for _, fn := range fns {
 		if fn == nil || fn.Blocks == nil {
@@ -109,9 +131,23 @@ func ruleColumnCount(c *Ctx, p *core.Program, rule string) {
 			n++
 			k++
 			key := sprintf("%s/loop#%d", core.FuncName(fn), k)
-			fromCols := core.DependsOn(bound, func(x ssa.Value) bool {
-				return strings.HasSuffix(core.FieldOrigin(x, 0), "Block.Columns")
-			}, false)
+			fromCols := core.DependsOn(bound, isCols, false)
+			if !fromCols && len(callSites[fn]) > 0 {
+				// a helper: the bound is one of its parameters, fed with Block.Columns at every call site
+				for i, pr := range fn.Params {
+					if !core.DependsOn(bound, func(x ssa.Value) bool { return x == ssa.Value(pr) }, false) {
+						continue
+					}
+					all := true
+					for _, cs := range callSites[fn] {
+						args := cs.call.Common().Args
+						if i >= len(args) || !core.DependsOn(args[i], isCols, false) {
+							all = false
+						}
+					}
+					fromCols = all
+				}
+			}
 			if fromCols {
 				c.R.Ok(rule, key, cfg, p.Pos(ifi.Cond.Pos()), "bounded by Block.Columns")
 			} else {
